@@ -310,12 +310,12 @@ def run(ctx):
     reduced_before_n_ids(ctx, chi, ctx.sub_rng(999))
     n = 120 if quick else 1500
     for i in range(n):
-        pop_objects(ctx, chi, ctx.sub_rng(4 * i), i)
-        hier_objects(ctx, chi, ctx.sub_rng(4 * i + 1), i)
+        ctx.guard(pop_objects, ctx, chi, ctx.sub_rng(4 * i), i)
+        ctx.guard(hier_objects, ctx, chi, ctx.sub_rng(4 * i + 1), i)
         if i % 2 == 0:
-            likelihood_objects(ctx, chi, ctx.sub_rng(4 * i + 2), i)
-            predictive_objects(ctx, chi, ctx.sub_rng(4 * i + 3), i)
-    sbml_objects(ctx, chi, ctx.sub_rng(10 ** 6), 12 if quick else 80)
+            ctx.guard(likelihood_objects, ctx, chi, ctx.sub_rng(4 * i + 2), i)
+            ctx.guard(predictive_objects, ctx, chi, ctx.sub_rng(4 * i + 3), i)
+    ctx.guard(sbml_objects, ctx, chi, ctx.sub_rng(10 ** 6), 12 if quick else 80)
     if not quick:
         opts = [(c, nd, 0, None) for c in range(7) for nd in (1, 2)]
         k = 0
